@@ -1,7 +1,7 @@
 // C01, machine width: compute_strides / compute_offset / compute_indices at the index-math level (nothing is
 // allocated) with 32-bit signed / unsigned and 64-bit signed / unsigned ELEMENT TYPES in every run-time container kind
-// (dynamic list std::vector, fixed std::array, bounded utl::static_vector), on extents / offsets up to 2^64-1.
-//   w_strides ty=<i32|u32|i64|u64> kind=<vec|arr|sv> shape=<s>                       -> ok <strides>
+// (dynamic list std::vector, fixed std::array, bounded utl::static_vector, run-time tuple), on extents / offsets up to 2^64-1.
+//   w_strides ty=<i32|u32|i64|u64> kind=<vec|arr|sv|tup> shape=<s>                   -> ok <strides>
 //   w_offset  tyi=<T> tys=<T> ki=<kind> ks=<kind> idx=<i> strides=<st>               -> ok <offset>
 //   w_indices ty=<T> kind=<kind> off=<o> shape=<s> [offty=sz|same]                   -> ok <indices>   (2-argument form)
 //   w_indices3 ty=<T> kind=<kind> off=<o> shape=<s> strides=<st>                     -> ok <indices>   (3-argument form)
@@ -48,6 +48,14 @@ template <typename T, typename F> static std::string with_kind(const std::string
     if (!fits<T>(s)) return "bad-args";
     if (kind=="vec") { std::vector<T> v(s.size()); for (size_t i=0;i<s.size();i++) v[i]=(T)s[i]; return f(v); }
     if (kind=="sv") { if (s.size()>SV_CAP) return "bad-args"; utl::static_vector<T,SV_CAP> v; v.resize(s.size()); for (size_t i=0;i<s.size();i++) v[i]=(T)s[i]; return f(v); }
+    if (kind=="tup") {   // run-time tuple (fixed length, elements of T): the kind a(i,j,k) packs indices into
+        switch (s.size()) {
+            case 1: return f(nmtools_tuple<T>{(T)s[0]});
+            case 2: return f(nmtools_tuple<T,T>{(T)s[0],(T)s[1]});
+            case 3: return f(nmtools_tuple<T,T,T>{(T)s[0],(T)s[1],(T)s[2]});
+            default: return "bad-args";
+        }
+    }
     if (kind=="arr") {
         switch (s.size()) {
 #define CASE(N) case N: { std::array<T,N> v{}; for (size_t i=0;i<N;i++) v[i]=(T)s[i]; return f(v); }
